@@ -148,7 +148,7 @@ def small_programs(tier):
 
 class CHECK(FloCheck):
     PROPERTY = "C07"
-    LEAN_MODULES = ["IofloModel.Props.C07"]
+    LEAN_MODULES = ["IofloModel.Props.C07", "IofloModel.Props.C07M"]
     N_QUICK = 350
     N_THOROUGH = 12000
     N_SEARCH = 600
@@ -173,7 +173,8 @@ class CHECK(FloCheck):
     LEVEL_TEXT = ("Proved on the Lean interpreter: C07_segue_first_match (segue = preacts of the active frames top-down in "
                   "declaration order up to the first truthy one), C07_first_enabled_transition_taken, C07_transit_* (needs, "
                   "then entry guards, then tracts/exit/rexit/renter/enter/activate; a refused transition changes nothing), "
-                  "C07_suspend_* . The agreement of ioflo with the interpreter is a correspondence over generated and "
+                  "C07_suspend_* ; C07_depth_monotone_step/_tick/_finalize, C07_depth_irrelevant_tick (Props/C07M: a result obtained "
+                  "with nesting-depth fuel n is the result for every greater depth). The agreement of ioflo with the interpreter is a correspondence over generated and "
                   "bounded-exhaustive programs, not a proof.")
     LEVEL_NOTE = ("Trusted: Lean kernel; axioms propext, Classical.choice, Quot.sound; the Lean interpreter as the statement "
                   "of the documented semantics; the harness' rendering of a program to FloScript text and to the driver's "
